@@ -409,6 +409,10 @@ class Ref:
                     val = x[i]
                     if n < len(x): del x[n:]
                     else: x.extend([val] * (n - len(x))); need = n
+                elif op == "aappendsub" and len(t) == 4:
+                    i, n = int(t[2]), int(t[3])
+                    if i + n > len(x): return "bad-op"
+                    x.extend(list(x[i:i + n])); need = len(x)
                 elif op == "aassignself" and len(t) == 2:
                     pass
                 elif op == "aeq" and len(t) == 3:
@@ -579,7 +583,8 @@ A_OPS = ["aresized 0 3", "aappend 0 0", "aappend 0 1", "aappend 0 2", "aappendn 
          "aremovei 0 0", "aremovei 0 1", "aremovei 0 7", "aremove 0 0", "aremoveBack 0", "aremoveFront 0", "aclear 0", "aswap 0",
          "acopy 1", "acopy 0", "aassign 0", "aassign 1", "anewcap 0 2", "anewcap 1 0", "anew 0", "afind 0 1", "aget 0 0",
          "aappend 1 2", "aeq 0 1",
-         "aappendself 0", "aappendref 0 0", "aappendref 0 1", "aresizeref 0 5 0", "aresizeref 0 1 0", "aassignself 0"]
+         "aappendself 0", "aappendref 0 0", "aappendref 0 1", "aresizeref 0 5 0", "aresizeref 0 1 0", "aassignself 0",
+         "aappendsub 0 0 2", "aappendsub 0 1 1"]
 
 
 def exhaustive(alpha, depth):
@@ -682,6 +687,10 @@ def alias_histories():
             for i in range(m):                       # EVERY index at every size/capacity combination
                 tails.append([f"aappendref 0 {i}"])
                 tails.append([f"aappendref 0 {i}", f"aappendref 0 {i}"])
+            # a.append(&a[i], n): sub-ranges at the front, the back, the whole array and the empty range at every offset
+            for i, n in sorted({(0, m), (0, 1), (m - 1, 1), (m // 2, m - m // 2), (0, m // 2), (m, 0), (0, 0), (m // 2, 0),
+                                (max(0, m - 3), min(3, m)), (1, m - 1)}):
+                tails.append([f"aappendsub 0 {i} {n}"])
             for i in sorted({0, m // 2, m - 1}):
                 for n in sorted({m, m + 1, (max(c, m) | 3), (max(c, m) | 3) + 1, m + 9}):
                     tails.append([f"aresizeref 0 {n} {i}"])
@@ -797,7 +806,8 @@ def gen_random(rng, length, kinds, pool_front):
                                             f"afind {v} {val()}", f"afind {v} {rng.choice(r.a[v]) if r.a[v] else 0}",
                                             f"aget {v} {pos(n, False)}", f"afront {v}", f"aback {v}", f"aeq {v} {rng.randrange(2)}"])
             elif k < 0.985: op = rng.choice([f"aappendref {v} {pos(n, False)}", f"aresizeref {v} {rng.choice([0, n, n + 1, n + 5, r.cap[v][0] + 1])} {pos(n, False)}",
-                                             f"aassignself {v}", f"aappendself {v}" if n <= 30 else f"aappendref {v} {pos(n, False)}"])
+                                             f"aassignself {v}", f"aappendself {v}" if n <= 30 else f"aappendref {v} {pos(n, False)}",
+                                             f"aappendsub {v} {pos(n, True)} {rng.choice([0, 1, 2, n]) if n <= 30 else 1}"])
             else: op = f"aclear {v}"
         h.append(op)
         r.apply(op)
